@@ -4,7 +4,7 @@
    over every string whatever the tokeniser makes of it. *)
 Require Import PV.Base PV.Dewey PV.DeweySpec PV.DeweyProofs PV.DeweyPat.
 Require Import Coq.Strings.String.
-Local Open Scope string_scope.
+Import Coq.Lists.List ListNotations.
 Local Open Scope N_scope.
 
 Theorem C03_trichotomy : forall a b : ver,
@@ -42,7 +42,7 @@ Example C03_example :
   dewey_cmp (mkv (lit "1.0alpha")) LE (mkv (lit "1.0")) = true /\
   dewey_cmp (mkv (lit "1.0")) LE (mkv (lit "1.0.0nb1")) = true /\
   dewey_cmp (mkv (lit "1.0alpha")) LE (mkv (lit "1.0.0nb1")) = true.
-Proof. vm_compute. auto. Qed.
+Proof. vm_compute. repeat split. Qed.
 
 Print Assumptions C03_trichotomy.
 Print Assumptions C03_le_is_not_gt.
